@@ -1050,7 +1050,7 @@ pub fn gen_prog(r: &mut Rng, root: &J, o: &GenOpts) -> Prog {
 fn add_adversarial(r: &mut Rng, p: &mut Prog, _root: &J) {
     let n = 1 + r.usize(3);
     for _ in 0..n {
-        let k = r.below(17);
+        let k = r.below(18);
         let name = format!("adv{}", p.rules.len() + 1);
         let q = |parts: Vec<Part>| Query { some: false, parts };
         let var = |v: &str| Part::Var(v.to_string());
@@ -1194,6 +1194,18 @@ fn add_adversarial(r: &mut Rng, p: &mut Prog, _root: &J) {
                 lines.push(Line { alts: vec![Clause::Cmp(Cmp { not: r.chance(1, 3), q: q(vec![var("subj")]), op: Op::Eq, opnot: r.chance(1, 3), rhs: Some(Rhs::Regex(re.clone())), msg: None })] });
                 lets.push(Let { name: "rx".into(), val: Arg::Func(Box::new(Func { name: "regex_replace".into(), args: vec![Arg::Query(q(vec![var("subj")])), Arg::Lit(J::Str("(a+)+$".into())), Arg::Lit(J::Str("$1$1".into()))] })) });
                 lines.push(Line { alts: vec![Clause::Cmp(Cmp { not: false, q: q(vec![var("rx")]), op: Op::Exists, opnot: false, rhs: None, msg: None })] });
+            }
+            16 => {
+                // a variable defined in terms of itself (directly, mutually, or through a function)
+                match r.below(3) {
+                    0 => lets.push(Let { name: "cy".into(), val: Arg::Query(q(vec![var("cy")])) }),
+                    1 => {
+                        lets.push(Let { name: "cy".into(), val: Arg::Query(q(vec![var("cz"), Part::Key("a".into())])) });
+                        lets.push(Let { name: "cz".into(), val: Arg::Query(q(vec![var("cy")])) });
+                    }
+                    _ => lets.push(Let { name: "cy".into(), val: Arg::Func(Box::new(Func { name: "count".into(), args: vec![Arg::Query(q(vec![var("cy")]))] })) }),
+                }
+                lines.push(Line { alts: vec![Clause::Cmp(Cmp { not: false, q: q(vec![var("cy")]), op: Op::Eq, opnot: false, rhs: Some(Rhs::Lit(J::Int(1))), msg: None })] });
             }
             _ => {
                 // some + not + empty on nested star paths
